@@ -246,11 +246,30 @@ func Run(args []string) {
 			"objects are shared between schemas of a history; every result is compared with the same operation on fresh objects (same "+
 			"AddType/AddRule prefix), handed-out values are re-read at the end; whole run repeated in-process and in 3 child processes. "+
 			"Non-trivial = some object is the target of >= 2 non-set-up operations or the argument of >= 2 operations")
+	// diffs are buffered so that unclassified ones are reported first (the
+	// report keeps the first 25 only)
+	var buffered []vh.Diff
+	addDiff := func(d vh.Diff) { buffered = append(buffered, d) }
+	finish := func() {
+		for _, d := range buffered {
+			if d.Class == "" {
+				rep.AddDiff(d)
+				rep.Stat("diffs_unclassified_" + d.Component)
+			}
+		}
+		for _, d := range buffered {
+			if d.Class != "" {
+				rep.AddDiff(d)
+				rep.Stat("diffs_" + d.Class + "_" + d.Component)
+			}
+		}
+		rep.Finish()
+	}
 	rs, to := runAll(n, workers, withKnown, false, false)
 	if to >= 0 {
 		h := Generate(vh.NewRand(caseRand(to)), withKnown)
-		rep.AddDiff(vh.Diff{Component: "C11-history", Input: fmt.Sprintf("history #%d: %s", to, h.Text()), Impl: "TIMEOUT", Model: "every operation terminates"})
-		rep.Finish()
+		addDiff(vh.Diff{Component: "C11-history", Input: fmt.Sprintf("history #%d: %s", to, h.Text()), Impl: "TIMEOUT", Model: "every operation terminates"})
+		finish()
 		return
 	}
 	for _, r := range rs {
@@ -259,7 +278,7 @@ func Run(args []string) {
 			rep.Stat(s)
 		}
 		for _, d := range r.Diffs {
-			rep.AddDiff(d)
+			addDiff(d)
 		}
 	}
 	base := make([]string, n)
@@ -273,10 +292,12 @@ func Run(args []string) {
 				continue
 			}
 			bad++
+			h := Generate(vh.NewRand(caseRand(i)), withKnown)
 			if bad > 5 {
+				addDiff(vh.Diff{Component: "C11-mapiter", Input: fmt.Sprintf("history #%d (vh.NewRand(%d)): %s", i, caseRand(i), h.Text()),
+					Impl: "transcript digest differs in " + label, Model: "identical canonical results in every run", Class: h.KnownClass(len(h.Ops))})
 				continue
 			}
-			h := Generate(vh.NewRand(caseRand(i)), withKnown)
 			detail := "transcript digest " + base[i] + " in the first pass, "
 			if i < len(other) {
 				detail += other[i]
@@ -298,20 +319,17 @@ func Run(args []string) {
 				sort.Strings(ks)
 				detail += "; differing line: " + firstDiffLine(seen[ks[0]], seen[ks[1]])
 			}
-			rep.AddDiff(vh.Diff{Component: "C11-mapiter", Input: fmt.Sprintf("history #%d (vh.NewRand(%d)): %s", i, caseRand(i), h.Text()),
+			addDiff(vh.Diff{Component: "C11-mapiter", Input: fmt.Sprintf("history #%d (vh.NewRand(%d)): %s", i, caseRand(i), h.Text()),
 				Impl: detail, Model: "identical canonical results in every run (map iteration order, scheduling, heap layout must not matter)",
 				Class: h.KnownClass(len(h.Ops))})
-		}
-		for ; bad > 5; bad-- {
-			rep.NDiffs++
 		}
 		rep.Stat("runs_compared")
 	}
 	// second pass in the same process: other order, other worker count
 	rs2, to2 := runAll(n, imax(2, workers/3), withKnown, true, true)
 	if to2 >= 0 {
-		rep.AddDiff(vh.Diff{Component: "C11-history", Input: fmt.Sprintf("history #%d (second pass)", to2), Impl: "TIMEOUT", Model: "every operation terminates"})
-		rep.Finish()
+		addDiff(vh.Diff{Component: "C11-history", Input: fmt.Sprintf("history #%d (second pass)", to2), Impl: "TIMEOUT", Model: "every operation terminates"})
+		finish()
 		return
 	}
 	d2 := make([]string, n)
@@ -319,7 +337,7 @@ func Run(args []string) {
 		d2[i] = r.Digest
 		for _, d := range r.Diffs {
 			d.Note = "second in-process pass"
-			rep.AddDiff(d)
+			addDiff(d)
 		}
 	}
 	compare("the second in-process pass (reverse order, fewer workers, garbage + GC in between)", d2)
@@ -343,13 +361,13 @@ func Run(args []string) {
 	for ci, cfg := range cfgs {
 		label := fmt.Sprintf("child process GOMAXPROCS=%d garbage=%v", cfg.procs, cfg.garbage)
 		if problems[ci] != "" {
-			rep.AddDiff(vh.Diff{Component: "C11-mapiter", Input: label, Impl: problems[ci], Model: "child run completes"})
+			addDiff(vh.Diff{Component: "C11-mapiter", Input: label, Impl: problems[ci], Model: "child run completes"})
 			continue
 		}
 		compare(label, outs[ci])
 	}
 	rep.Extra["known_stream"] = fmt.Sprint(withKnown)
-	rep.Finish()
+	finish()
 }
 
 func firstDiffLine(a, b string) string {
